@@ -208,7 +208,9 @@ Definition run_units : dispatcher := fun op args =>
     | c :: ex :: ids =>
       match as_ctx c, as_extra ex, as_list as_NL ids with
       | Some c, Some ex, Some ids =>
-        Some (XL (map (fun id => sx_N (status_of (model_query_r c ex id))) ids))
+        Some (XL (map (fun id => sx_N (match model_query_r c ex id with
+                                        | LErr EOutOfFuel => 4     (* outside the modelled fragment *)
+                                        | r => status_of r end)) ids))
       | _, _, _ => Some sx_bad
       end
     | _ => Some sx_bad
